@@ -72,8 +72,14 @@ _fn = {}
 _kcount = {}
 _problem = None
 _O = None
-PREFLIGHT_WALL_S = 20.0
-PREFLIGHT_AS_BYTES = 6 << 30
+PREFLIGHT_WALL_S = 8.0  # the rust jobs of a case take milliseconds
+PREFLIGHT_AS_BYTES = 2 << 30
+RUST_PATH_BUDGET = 400_000  # Python steps of an adapter (path/dict conversion of <= 400 nodes); the kernel is native
+PY_PATH_BUDGET = 30_000_000
+NATIVE_FAILURE_LIMIT = 3  # after that many native hangs/aborts a worker stops exploring (each costs seconds)
+_native_failures = 0
+_last_native = False  # did the most recent graph execution end in a native failure
+_culprit = None
 
 
 # ---------------------------------------------------------------- setup
@@ -194,13 +200,21 @@ def _targets(rng, n, src):
     return seen
 
 
-def _case(kind, n, edges, src, jobs, approx=False, auto=False):
+def _case(kind, n, edges, src, jobs, approx=False, auto=False, kwcall=False):
     return {"kind": kind, "n": n, "edges": [tuple(e) for e in edges], "src": src, "jobs": jobs, "approx": approx,
-            "auto": auto}
+            "auto": auto, "kwcall": kwcall}
 
 
 def gen(stratum, rng, tier):
     auto = rng.random() < 0.25
+    if stratum not in ("exh",):
+        case = _gen(stratum, rng, tier, auto)
+        case["kwcall"] = rng.random() < 0.15  # all parameters passed by keyword
+        return case
+    return _gen(stratum, rng, tier, auto)
+
+
+def _gen(stratum, rng, tier, auto):
     if stratum == "fw":
         n = rng.randint(1, 7)
         pairs = _pairs(rng, n, rng.randint(0, 2 * n + 3), dup=0.3, anti=0.25)
@@ -441,7 +455,14 @@ def _args_for(name, case, kw):
     return (n, [(u, v) for u, v, _ in edges]), kw
 
 
-def _invoke(obs, name, args, kw, backend):
+_PARAMS = {"floyd_warshall": ("n_nodes", "edges"), "bellman_ford": ("start", "edges", "n_nodes"),
+           "dijkstra_edges": ("n_nodes", "edges", "source"), "bfs_edges": ("n_nodes", "edges", "source"),
+           "dfs_edges": ("n_nodes", "edges", "source"), "kruskal": ("n_nodes", "edges"),
+           "pagerank_edges": ("n_nodes", "edges"), "strongly_connected_components_edges": ("n_nodes", "edges"),
+           "topological_sort_edges": ("n_nodes", "edges")}
+
+
+def _invoke(obs, name, args, kw, backend, kwcall=False):
     """returns Result | Crash; a Rust panic is a violation crash:PanicException"""
     from vf.common import Crash, call
 
@@ -449,6 +470,9 @@ def _invoke(obs, name, args, kw, backend):
     kw = dict(kw)
     if backend != "default":
         kw["backend"] = backend
+    if kwcall:
+        kw.update(zip(_PARAMS[name], args))
+        args = ()
 
     def guarded():
         try:
@@ -458,7 +482,7 @@ def _invoke(obs, name, args, kw, backend):
                 return _Panic(e)
             raise
 
-    r = call(obs, guarded, budget=30_000_000, what=f"{name}[{backend}]")
+    r = call(obs, guarded, budget=PY_PATH_BUDGET if backend == "python" else RUST_PATH_BUDGET, what=f"{name}[{backend}]")
     if isinstance(r, _Panic):
         obs.violate("crash:PanicException", f"{name}[{backend}] args={_short((args, kw))}: {r.e!r}")
         return Crash("crash", r.e)
@@ -485,9 +509,14 @@ def _preflight(case_jobs):
                 resource.setrlimit(resource.RLIMIT_AS, (PREFLIGHT_AS_BYTES, PREFLIGHT_AS_BYTES))
             except Exception:
                 pass
+            from vf.common import Obs, call
+
+            scratch = Obs()
             for name, args, kw in case_jobs:
                 try:
-                    _fn[name](*args, backend="rust", **kw)
+                    # same fuel budget as the real run: an endless *Python* loop in an adapter ends here quickly
+                    # and is reported by the in-process run as `hang`
+                    call(scratch, _fn[name], *args, budget=RUST_PATH_BUDGET, backend="rust", **kw)
                 except BaseException:
                     pass
         finally:
@@ -973,7 +1002,7 @@ def _run_job(obs, case, name, kw):
     for be in backends:
         k0 = _kcount[kernel]
         a2 = tuple(list(a) if isinstance(a, list) else a for a in args)
-        res = _invoke(obs, name, a2, kw2, be)
+        res = _invoke(obs, name, a2, kw2, be, case.get("kwcall", False))
         used = _kcount[kernel] - k0
         if be == "python":
             if used:
@@ -984,6 +1013,9 @@ def _run_job(obs, case, name, kw):
             elif not is_crash(res):
                 obs.inconc(f"{name}(backend={be!r}) did not reach the Rust kernel {kernel} ({used} calls): nothing to compare")
         if is_crash(res):
+            continue
+        if not all(hasattr(res, f) for f in ("solution", "objective", "status")):
+            obs.violate(f"{short}.{be}.malformed", f"{name}{_short(args, 500)} {kw2}: returned {_short(res, 200)}, not a Result")
             continue
         if a2[1] != (args[1]):
             obs.event(f"info.{short}.input-mutated")
@@ -1012,6 +1044,12 @@ def _run_job(obs, case, name, kw):
 
 
 def _run_graph_case(case, obs):
+    global _native_failures, _culprit, _last_native
+    _culprit = None
+    _last_native = False
+    if _native_failures >= NATIVE_FAILURE_LIMIT:
+        obs.event("skipped.after-native-failures")
+        return
     jobs = [(name, kw) for name, kw in case["jobs"]]
     pre = []
     for name, kw in jobs:
@@ -1022,10 +1060,16 @@ def _run_graph_case(case, obs):
     if bad:
         # find the job (each one alone) so that the witness names it
         culprit = None
-        for j in pre:
-            if _preflight([j]):
-                culprit = j
-                break
+        _native_failures += 1
+        _last_native = True
+        if len(pre) == 1:
+            culprit = pre[0]
+        else:
+            for (j, jk) in zip(pre, jobs):
+                if _preflight([j]):
+                    culprit = j
+                    _culprit = jk
+                    break
         obs.violate(bad[0], f"{bad[1]}; job={_short(culprit if culprit else pre, 900)}")
         return
     nt = False
@@ -1042,6 +1086,10 @@ def run(case, obs):
         obs.event("profile.debug-build")
     else:
         obs.event("profile.release-build")
+    if case.get("kwcall"):
+        obs.event("style.keyword-call")
+    if case.get("auto"):
+        obs.event("style.backend-auto")
     if case["kind"] == "exh":
         cnt = 0
         for n, mask in case["graphs"]:
@@ -1072,18 +1120,30 @@ def run(case, obs):
 def shrink(case):
     if case["kind"] == "exh":
         g = case["graphs"]
-        if len(g) > 1:
+        if len(g) > 1 and not _last_native:
             mid = len(g) // 2
             yield dict(case, graphs=g[:mid])
             yield dict(case, graphs=g[mid:])
         return
     jobs = case["jobs"]
+    if _last_native:
+        # a native hang/abort costs seconds per re-execution: only isolate the job
+        if _culprit is not None and len(jobs) > 1:
+            yield dict(case, jobs=[_culprit])
+        return
     if len(jobs) > 1:
         for i in range(len(jobs)):
             yield dict(case, jobs=[jobs[i]])
     edges = case["edges"]
-    for i in range(len(edges)):
-        yield dict(case, edges=edges[:i] + edges[i + 1:])
+    m = len(edges)
+    size = m // 2
+    while size >= 2:
+        for lo in range(0, m, size):
+            yield dict(case, edges=edges[:lo] + edges[lo + size:])
+        size //= 2
+    if m <= 48:
+        for i in range(m):
+            yield dict(case, edges=edges[:i] + edges[i + 1:])
     n = case["n"]
     used = {case["src"]} | {e[0] for e in edges} | {e[1] for e in edges} | {kw.get("target") for _, kw in jobs}
     if n > 1 and (n - 1) not in used:
